@@ -7,9 +7,9 @@
    for c_cnt j units; its token file is named after the job (CounterTokenDependency.name), so
    names are job numbers.  Everything is a total function nat -> _ (absent = default).
 
-   The three `variant` switches select, for each of the three defects of the pinned commit,
-   the literal pre-fix behaviour (false) or the repaired one (true); VL is the pinned code,
-   VF the repaired code (fixes/C09-1..3).                                                  *)
+   The `variant` switches select, for each of the four defects of the pinned commit, the
+   literal pre-fix behaviour (false) or the repaired one (true); VL is the pinned code, VF
+   the repaired code (fixes/C09-1..3, C11-2).                                                     *)
 From Coq Require Import ZArith List Bool Arith.
 Import ListNotations.
 Open Scope Z_scope.
@@ -17,10 +17,11 @@ Open Scope Z_scope.
 Record variant := mkV {
   v_parse : bool;   (* on_created/on_modified ignore a token file that cannot be parsed yet *)
   v_count : bool;   (* on_created/on_modified charge `available` for the file they cache     *)
-  v_notify : bool   (* release() notifies the dependents even when its file is already gone  *)
+  v_notify : bool;  (* release() notifies the dependents even when its file is already gone  *)
+  v_watch : bool    (* __init__ recounts once more after it has installed the directory watch *)
 }.
-Definition VF := mkV true true true.
-Definition VL := mkV false false false.
+Definition VF := mkV true true true true.
+Definition VL := mkV false false false false.
 
 Record cfg := mkCfg { c_total : Z; c_n : nat; c_owner : nat -> nat; c_cnt : nat -> Z }.
 
@@ -41,8 +42,12 @@ Record proc := mkProc {
   p_evq : list event;          (* filesystem events not yet handled *)
   p_wat : list nat             (* TokenFile.watch threads not yet finished (by file name) *)
 }.
-(* j_ok = (Dependency.currentstatus = OK); j_orph = the scheduler that took the token died *)
-Record jst := mkJ { j_ph : phase; j_ok : bool; j_orph : bool }.
+(* j_ok = (Dependency.currentstatus = OK); j_orph = the scheduler that took the token died;
+   j_lock = the job's .lock file is held by its scheduler (aio_start l.683: from before the
+   dependency locks are taken until the process is started and the pid file written);
+   j_pid = the job's .pid file exists (written by aio_run, removed by an orderly end of the
+   job, left behind when the job process is killed)                                        *)
+Record jst := mkJ { j_ph : phase; j_ok : bool; j_orph : bool; j_lock : bool; j_pid : bool }.
 Record state := mkS {
   s_lock : option nat;         (* token.lock: held by the acquire that is creating this file *)
   s_disk : nat -> fcont;
@@ -51,7 +56,7 @@ Record state := mkS {
 }.
 
 Definition dead_proc := mkProc false 0 (fun _ => None) false [] [].
-Definition init : state := mkS None (fun _ => Absent) (fun _ => dead_proc) (fun _ => mkJ Idle false false).
+Definition init : state := mkS None (fun _ => Absent) (fun _ => dead_proc) (fun _ => mkJ Idle false false false false).
 
 Definition upd {A} (f : nat -> A) (k : nat) (v : A) : nat -> A := fun x => if Nat.eqb x k then v else f x.
 
@@ -97,13 +102,15 @@ Definition recount (C : cfg) (s : state) (pr : proc) : proc :=
          cache' (p_obs pr) (p_evq pr)
          (p_wat pr ++ new_names C s pr).
 
+Definition set_ok (js : jst) (b : bool) : jst := mkJ (j_ph js) b (j_orph js) (j_lock js) (j_pid js).
+
 (* Token.aio_notify with the posted checks run at once: if available > 0 every dependency of
    this process is re-checked (status = count <= available)                               *)
 Definition notify (C : cfg) (p : nat) (avail : Z) (jobs : nat -> jst) : nat -> jst :=
   if 0 <? avail then
     fun j => let js := jobs j in
       if Nat.eqb (c_owner C j) p && negb (j_orph js)
-      then mkJ (j_ph js) (c_cnt C j <=? avail) (j_orph js) else js
+      then set_ok js (c_cnt C j <=? avail) else js
   else jobs.
 
 Fixpoint remove_nth {A} (i : nat) (l : list A) : list A :=
@@ -126,10 +133,13 @@ Inductive label :=
 | WriteF (j : nat)           (* write() + close of the token file, token.lock released *)
 | Launch (j : nat)           (* job process started, pid written, job lock released *)
 | JobEnds (j : nat) (code : Z)
+| JobKilled (j : nat)
 | Release (p j : nat)        (* Locks._release -> CounterToken.release *)
 | Deliver (p i : nat)        (* the observer of p handles its i-th pending event *)
-| Fire (p n : nat).          (* a watcher thread of p for file n gets the job lock, sees the
+| Fire (p n : nat)           (* a watcher thread of p for file n gets the job lock, sees the
                                 job process gone, deletes the file *)
+| StartRace (p n : nat).     (* Start p, and the watcher thread that its first _update starts
+                                for file n finishes at once *)
 Inductive result := ROk | RLockError | RRaised.
 
 (* token.lock is not held by process p (its handlers and its kill are outside an acquire) *)
@@ -138,9 +148,18 @@ Definition not_creating (C : cfg) (s : state) (p : nat) : bool :=
 Definition lock_free (s : state) : bool := match s_lock s with None => true | Some _ => false end.
 Definition is_idle (ph : phase) : bool := match ph with Idle => true | _ => false end.
 Definition is_present (f : fcont) : bool := match f with Absent => false | _ => true end.
-Definition set_ph (js : jst) (ph : phase) : jst := mkJ ph (j_ok js) (j_orph js).
+Definition set_job (js : jst) (ph : phase) (lock pid : bool) : jst := mkJ ph (j_ok js) (j_orph js) lock pid.
+Definition set_ph (js : jst) (ph : phase) : jst := set_job js ph (j_lock js) (j_pid js).
+Definition is_running (ph : phase) : bool := match ph with Running => true | _ => false end.
+(* TokenFile.watch.run (l.130-155): the thread needs the job lock; with a pid file it waits
+   for the process it names (a process that is gone - Process.fromDefinition returns None -
+   is not waited for); then it deletes the token file                                      *)
+Definition watcher_can_finish (js : jst) : bool :=
+  negb (j_lock js) && (negb (j_pid js) || negb (is_running (j_ph js))).
+Definition emit_except (p : nat) (ev : event) (procs : nat -> proc) : nat -> proc :=
+  fun q => if Nat.eqb q p then procs q else emit ev procs q.
 
-Definition step (V : variant) (C : cfg) (s : state) (l : label) : option (state * result) :=
+Definition step1 (V : variant) (C : cfg) (s : state) (l : label) : option (state * result) :=
   match l with
   | Start p =>
       let fresh := mkProc true 0 (fun _ => None) true [] [] in
@@ -149,7 +168,7 @@ Definition step (V : variant) (C : cfg) (s : state) (l : label) : option (state 
         (* aio_submit l.581-588: dependency.check() of each job of this scheduler *)
         let jobs' := fun j => let js := s_jobs s j in
           if Nat.eqb (c_owner C j) p && is_idle (j_ph js) && negb (j_orph js)
-          then mkJ (j_ph js) (c_cnt C j <=? p_avail pr) (j_orph js) else js in
+          then set_ok js (c_cnt C j <=? p_avail pr) else js in
         Some (mkS (s_lock s) (s_disk s) (upd (s_procs s) p pr) jobs', ROk)
       else None
   | Kill p =>
@@ -157,9 +176,9 @@ Definition step (V : variant) (C : cfg) (s : state) (l : label) : option (state 
         let jobs' := fun j => let js := s_jobs s j in
           if Nat.eqb (c_owner C j) p && negb (j_orph js) then
             match j_ph js with
-            | Holding => mkJ Ended (j_ok js) true    (* no job process; the job lock died with p *)
-            | Running => mkJ Running (j_ok js) true
-            | Ended => mkJ Ended (j_ok js) true
+            | Holding => mkJ Ended (j_ok js) true false (j_pid js)  (* no job process; the job lock died with p *)
+            | Running => mkJ Running (j_ok js) true (j_lock js) (j_pid js)
+            | Ended => mkJ Ended (j_ok js) true (j_lock js) (j_pid js)
             | _ => js
             end
           else js in
@@ -174,14 +193,14 @@ Definition step (V : variant) (C : cfg) (s : state) (l : label) : option (state 
         if p_avail pr <? c_cnt C j then
           (* LockError; aio_start then calls dependency.check() *)
           Some (mkS (s_lock s) (s_disk s) (upd (s_procs s) p pr)
-                    (upd (s_jobs s) j (mkJ (j_ph js) (c_cnt C j <=? p_avail pr) (j_orph js))),
+                    (upd (s_jobs s) j (set_ok js (c_cnt C j <=? p_avail pr))),
                 RLockError)
         else
           let pr' := mkProc (p_alive pr) (p_avail pr - c_cnt C j)
                             (upd (p_cache pr) j (Some (c_cnt C j))) (p_obs pr) (p_evq pr) (p_wat pr) in
           Some (mkS (Some j) (upd (s_disk s) j Empty)
                     (emit (ECreated j) (upd (s_procs s) p pr'))
-                    (upd (s_jobs s) j (set_ph js Creating)),
+                    (upd (s_jobs s) j (set_job js Creating true (j_pid js))),
                 ROk)
       else None
   | WriteF j =>
@@ -199,10 +218,18 @@ Definition step (V : variant) (C : cfg) (s : state) (l : label) : option (state 
       let js := s_jobs s j in
       match j_ph js with
       | Holding => if j_orph js then None
-                   else Some (mkS (s_lock s) (s_disk s) (s_procs s) (upd (s_jobs s) j (set_ph js Running)), ROk)
+                   else Some (mkS (s_lock s) (s_disk s) (s_procs s) (upd (s_jobs s) j (set_job js Running false true)), ROk)
       | _ => None
       end
   | JobEnds j _ =>
+      (* orderly end (any exit code): the job removes its pid file *)
+      let js := s_jobs s j in
+      match j_ph js with
+      | Running => Some (mkS (s_lock s) (s_disk s) (s_procs s) (upd (s_jobs s) j (set_job js Ended (j_lock js) false)), ROk)
+      | _ => None
+      end
+  | JobKilled j =>
+      (* the job process is killed: its pid file stays behind *)
       let js := s_jobs s j in
       match j_ph js with
       | Running => Some (mkS (s_lock s) (s_disk s) (s_procs s) (upd (s_jobs s) j (set_ph js Ended)), ROk)
@@ -217,7 +244,7 @@ Definition step (V : variant) (C : cfg) (s : state) (l : label) : option (state 
           if p_alive pr0 && Nat.eqb (c_owner C j) p && negb (j_orph js) && lock_free s
              && parsable C s pr0 then
             let pr := recount C s pr0 in
-            let jobs1 := upd (s_jobs s) j (set_ph js ph') in
+            let jobs1 := upd (s_jobs s) j (set_job js ph' false (j_pid js)) in
             match p_cache pr j with
             | Some c =>
                 let pr' := mkProc (p_alive pr) (p_avail pr + c) (upd (p_cache pr) j None)
@@ -288,8 +315,7 @@ Definition step (V : variant) (C : cfg) (s : state) (l : label) : option (state 
       else None
   | Fire p n =>
       let pr := s_procs s p in
-      let enabled := match j_ph (s_jobs s n) with Idle | Ended | Done => true | _ => false end in
-      if p_alive pr && mem n (p_wat pr) && enabled then
+      if p_alive pr && mem n (p_wat pr) && watcher_can_finish (s_jobs s n) then
         let pr' := mkProc (p_alive pr) (p_avail pr) (p_cache pr) (p_obs pr) (p_evq pr)
                           (remove_first n (p_wat pr)) in
         let procs1 := upd (s_procs s) p pr' in
@@ -297,6 +323,51 @@ Definition step (V : variant) (C : cfg) (s : state) (l : label) : option (state 
         then Some (mkS (s_lock s) (upd (s_disk s) n Absent) (emit (EDeleted n) procs1) (s_jobs s), ROk)
         else Some (mkS (s_lock s) (s_disk s) procs1 (s_jobs s), ROk)
       else None
+  | StartRace _ _ => None
+  end.
+
+(* the watcher thread of p for file n finishes before p's directory watch exists: every
+   other live observer gets the deletion event, p does not                               *)
+Definition silent_fire (C : cfg) (s : state) (p n : nat) : option (state * result) :=
+  let pr := s_procs s p in
+  if p_alive pr && mem n (p_wat pr) && watcher_can_finish (s_jobs s n) then
+    let pr' := mkProc (p_alive pr) (p_avail pr) (p_cache pr) (p_obs pr) (p_evq pr)
+                      (remove_first n (p_wat pr)) in
+    let procs1 := upd (s_procs s) p pr' in
+    if is_present (s_disk s n)
+    then Some (mkS (s_lock s) (upd (s_disk s) n Absent) (emit_except p (EDeleted n) procs1) (s_jobs s), ROk)
+    else Some (mkS (s_lock s) (s_disk s) procs1 (s_jobs s), ROk)
+  else None.
+
+(* a token file is deleted by a watcher thread of a process that is not alive yet (see
+   StartRace): every live observer gets the event                                         *)
+Definition is_written (f : fcont) : bool := match f with Written _ => true | _ => false end.
+Definition ghost_delete (C : cfg) (s : state) (n : nat) : option state :=
+  if watcher_can_finish (s_jobs s n) && is_written (s_disk s n)
+  then Some (mkS (s_lock s) (upd (s_disk s) n Absent) (emit (EDeleted n) (s_procs s)) (s_jobs s))
+  else None.
+
+(* CounterToken.__init__ runs _update (which starts the watcher threads) and only then
+   installs the directory watch (l.219-230): a watcher that finishes in between deletes its
+   file unseen by the new process (pinned code: Start, then silent_fire).  The repaired
+   __init__ recounts once more after installing the watch, before any job is submitted: what
+   the new process then holds only depends on the directory after the deletion, i.e. the
+   race equals "the file disappears, then Start" (the watcher list is the same: one thread
+   per written file found, minus the finished one).                                       *)
+Definition step (V : variant) (C : cfg) (s : state) (l : label) : option (state * result) :=
+  match l with
+  | StartRace p n =>
+      if v_watch V then
+        match ghost_delete C s n with
+        | Some s1 => step1 V C s1 (Start p)
+        | None => None
+        end
+      else
+        match step1 V C s (Start p) with
+        | Some (s1, _) => silent_fire C s1 p n
+        | None => None
+        end
+  | _ => step1 V C s l
   end.
 
 Inductive reachable (V : variant) (C : cfg) : state -> Prop :=
